@@ -242,3 +242,109 @@ Theorem C12_tally_example :
   tally_vote false x = TO TOk 3 1700000000000000000 Resolved false true /\ tally_spec x (tally_vote false x) = [].
 Proof. exact tally_example. Qed.
 Print Assumptions C12_tally_example.
+
+(* ---- lifecycle correspondence: the histories of TestC12Lifecycle (LifeCase) -------------------------- *)
+(* the code's Dec arithmetic gives the property's amounts: 5 % = floor(slash/20), and the fee of the round that
+   follows round r is that 5 % doubled r times, capped by the slash amount *)
+Theorem C12_round_fee_formula slash r :
+  0 <= slash -> five_percent slash = slash / 20 /\ round_fee slash r = Z.min (slash / 20 * 2 ^ r) slash.
+Proof. exact (fun H => conj (five_percent_eq slash H) (round_fee_min slash r H)). Qed.
+Print Assumptions C12_round_fee_formula.
+
+(* 10 %, 20 %, 40 %, 80 %, then the whole slash amount *)
+Theorem C12_round_fee_schedule k :
+  0 < k ->
+  rfee (20 * k) 1 = 2 * k /\ rfee (20 * k) 2 = 4 * k /\ rfee (20 * k) 3 = 8 * k /\ rfee (20 * k) 4 = 16 * k /\
+  rfee (20 * k) 5 = 20 * k /\ rfee (20 * k) 6 = 20 * k.
+Proof. exact (rfee_schedule k). Qed.
+Print Assumptions C12_round_fee_schedule.
+
+Theorem C12_round_fee_capped slash r : 40 <= slash -> 5 <= r -> round_fee slash r = slash.
+Proof. exact (round_fee_capped slash r). Qed.
+Print Assumptions C12_round_fee_capped.
+
+(* the base is 5 % of the slash amount, not the accumulated burn amount (they differ from the third round on) *)
+Theorem C12_round_fee_base_is_not_burn :
+  rfee 1000000 2 = 200000 /\ burn_at 1000000 2 = 150000 /\ Z.min (burn_at 1000000 2 * 2 ^ 2) 1000000 = 600000 /\
+  round_fee 1000000 2 = 200000.
+Proof. exact rfee_not_from_burn. Qed.
+Print Assumptions C12_round_fee_base_is_not_burn.
+
+(* bookkeeping over every history of the lifecycle machine: the burn amount of a dispute in round r is 5 % plus the
+   fees of rounds 2..r, and once the fee is complete the fee total is the slash amount plus those fees *)
+Theorem C12_fee_burn_bookkeeping fx t0 es w d :
+  run fx (W t0 []) es = Some w -> In d (w_ds w) ->
+  1 <= d_round d /\
+  d_burn d = d_slash d / 20 + fee_sum (d_slash d) (Z.to_nat (d_round d - 1)) /\
+  (d_slash d <= d_fee_total d -> d_fee_total d = d_slash d + fee_sum (d_slash d) (Z.to_nat (d_round d - 1))) /\
+  (d_fee_total d < d_slash d -> d_round d = 1).
+Proof.
+  exact (fun H Hin =>
+    let B := proj1 (Forall_forall _ _) (proj2 (run_linv fx es (W t0 []) w (linv_empty t0) H)) d Hin in
+    conj (proj1 (proj2 B)) (conj (proj1 (binv_unfold d B)) (conj (proj2 (binv_unfold d B)) (proj2 (proj2 (proj2 (proj2 B))))))).
+Qed.
+Print Assumptions C12_fee_burn_bookkeeping.
+
+(* the machine the check runs on the observed events ([step] after refreshing the tally inputs a block reads, new
+   disputes and further rounds told apart by the report's lineage, the msg server's minimum fee) keeps the
+   invariants and the monotone lifecycle over every history ... *)
+Theorem C12_life_machine_history fx t0 es w :
+  life_model_run fx (W t0 []) [] es = Some w ->
+  winv w /\ Forall binv (w_ds w) /\
+  forall es2 lin2 w2, life_model_run fx w lin2 es2 = Some w2 ->
+    forall id d, nth_error (w_ds w) id = Some d ->
+      exists d', nth_error (w_ds w2) id = Some d' /\ status_reach (d_status d) (d_status d') /\
+                 rank d <= rank d' /\ (rank d = rank d' -> lc d = lc d').
+Proof.
+  exact (fun H => let L := proj1 (proj2 (life_model_run_ok fx es (W t0 []) [] w (linv_empty t0) H)) in
+                  conj (proj1 L) (conj (proj2 L)
+                    (fun es2 lin2 w2 H2 => proj2 (proj2 (life_model_run_ok fx es2 w lin2 w2 L H2))))).
+Qed.
+Print Assumptions C12_life_machine_history.
+
+(* ... and with the repair of F03 its BeginBlocker never fails *)
+Theorem C12_life_machine_no_halt t0 es : life_model_run true (W t0 []) [] es <> None.
+Proof. exact (life_model_run_no_halt es (W t0 []) [] (linv_empty t0)). Qed.
+Print Assumptions C12_life_machine_no_halt.
+
+(* soundness of the executable specification evaluated on the observed records: one record before / after one
+   event moves along one edge of prevote -> voting -> unresolved -> resolved | prevote -> failed or stays, its rank
+   never decreases, an unchanged rank means that status, open, pending, result, executed and round are unchanged
+   (so no transition happens twice), and id, slash amount, round and burn amount of an id never change *)
+Theorem C12_life_spec_record_step p n :
+  rec_step_ok p n = true ->
+  r_id p = r_id n /\ status_step (r_status p) (r_status n) /\ rrank p <= rrank n /\
+  (rrank p = rrank n -> rlc p = rlc n) /\
+  r_slash p = r_slash n /\ r_round p = r_round n /\ r_burn p = r_burn n /\ r_fee_total p <= r_fee_total n /\
+  (r_executed p = true -> r_executed n = true) /\ (r_result p <> 0 -> r_result n = r_result p).
+Proof. exact (rec_step_sound p n). Qed.
+Print Assumptions C12_life_spec_record_step.
+
+(* an empty issue list for a history (without halted blocks) means that the observations form a chain: every
+   record of an observation is found under the same position in the next one and moved as above *)
+Theorem C12_life_spec_history steps now prev lin log :
+  life_spec now prev lin log steps = [] -> (forall s, In s steps -> ls_res s < 2) ->
+  obs_chain prev steps /\
+  (forall s rest, steps = s :: rest ->
+     forall i p, nth_error prev i = Some p -> exists n, nth_error (ls_recs s) i = Some n /\ rec_step_ok p n = true).
+Proof. exact (life_spec_history steps now prev lin log). Qed.
+Print Assumptions C12_life_spec_history.
+
+(* an accepted further round on which the specification holds: the lineage's last dispute was unresolved, open and
+   not past its end, the payer was charged exactly min(5 % * 2^round, slash), the new record has the next id,
+   round + 1, and burn amount and fee total grown by that fee *)
+Theorem C12_life_spec_new_round now prev lin report slash fee ch N k p :
+  alookup report lin = Some k -> rnth prev k = Some p ->
+  propose_spec now prev lin report slash fee ch N = [] ->
+  exists P' n, split_last N = (P', Some n) /\ r_id n = zlen prev + 1 /\
+    r_status p = Unresolved /\ r_open p = true /\ now <= r_end p /\
+    ch = rfee (r_slash p) (r_round p) /\ ch <= fee /\
+    r_status n = Voting /\ r_round n = r_round p + 1 /\ r_burn n = r_burn p + ch /\ r_fee_total n = r_fee_total p + ch.
+Proof. exact (propose_spec_round now prev lin report slash fee ch N k p). Qed.
+Print Assumptions C12_life_spec_new_round.
+
+(* non-vacuity: a history recorded from the real application (two rounds without votes) passes the whole check;
+   the same history with the second round charged 20 % instead of 10 % does not *)
+Theorem C12_life_example : c12_check life_example_case = [] /\ c12_check life_example_bad <> [].
+Proof. exact life_example_both. Qed.
+Print Assumptions C12_life_example.
